@@ -472,6 +472,7 @@ func (vc *VC) store(x *ssa.Store) {
 			}
 		}
 		vc.disciplineStore(x, l, v)
+		vc.atStoreCheck(x, l, v)
 		vc.writeLV(l, v)
 		return
 	}
@@ -489,6 +490,62 @@ func (vc *VC) store(x *ssa.Store) {
 	} else {
 		n, s := vc.e.cellArr(t)
 		vc.setArr(n, s, Sto(vc.arrCur(n, s), p, v))
+	}
+}
+
+// atStoreCheck: `at_store T.f: COND` clauses of the enclosing loop and of the function. COND is evaluated
+// in the state before the store, with `value` bound to the stored value.
+func (vc *VC) atStoreCheck(x *ssa.Store, l *LV, v Term) {
+	if l.nnKey == "" || vc.con == nil {
+		return
+	}
+	var acs []*BodyCall
+	where := ""
+	lh := vc.innermostLoop(vc.blk.Index)
+	if lh < 0 {
+		lh = vc.srcLoopAt(x.Pos())
+	}
+	if lh >= 0 {
+		if ls := vc.loopSpecs[lh]; ls != nil {
+			acs = append(acs, ls.AtCalls...)
+			where = "loop " + ls.Key + ": "
+		}
+	}
+	nLoop := len(acs)
+	acs = append(acs, vc.con.AtCalls...)
+	for i, ac := range acs {
+		if ac.Fn != "store:"+l.nnKey {
+			continue
+		}
+		vc.evalPos = x.Pos()
+		ce := vc.envAt(vc.blk, vc.cur, nil)
+		vc.evalPos = token.NoPos
+		if lh >= 0 {
+			for _, hb := range vc.fn.Blocks {
+				if hb.Index == lh {
+					hce := vc.envAt(hb, vc.cur, nil)
+					if rx, ok := hce.vars["range_x"]; ok {
+						ce.vars["range_x"] = rx
+					}
+					vc.iterationNames(hb, ce)
+				}
+			}
+		}
+		ce.vars["value"] = cval{t: v, typ: l.typ}
+		t := ce.evalTop(ac.Req, true)
+		if ce.err != nil {
+			vc.unsupp("at_store %q: %v", ac.Text, ce.err)
+			continue
+		}
+		pr := ac.Props
+		if len(pr) == 0 {
+			pr = vc.con.Props
+		}
+		w := where
+		if i >= nLoop {
+			w = ""
+		}
+		vc.check("at-store", x.Pos(), w+ac.Text, t.t, pr)
 	}
 }
 
@@ -1081,8 +1138,8 @@ func (vc *VC) ret(x *ssa.Return) {
 		vc.check(kind, token.NoPos, bc.Text, Imp(wfs, Eq(Or(reaches...), t.t)), pr)
 	}
 	for _, c := range vc.con.Ensures {
-		if vc.con.Trusted != "" && !c.Auto {
-			continue // trusted contract: assumed at call sites, listed in the evidence, not verified here
+		if c.InTrustedBlock {
+			continue // trusted clause: assumed at call sites, listed in the evidence, not verified here
 		}
 		ce.err = nil
 		t := ce.evalTop(c.Expr, true)
